@@ -810,7 +810,7 @@ func TestRcheckPQL(t *testing.T) {
 	}
 	for _, y := range []int{2017, 2018} {
 		for _, mo := range []time.Month{time.January, time.March} {
-			for _, d := range []int{1, 31} {
+			for _, d := range []int{1, 6, 7, 31} {
 				for _, h := range []int{0, 13} {
 					pqTimes = append(pqTimes, time.Date(y, mo, d, h, 0, 0, 0, time.UTC))
 				}
